@@ -137,6 +137,7 @@ fn check_script(bytes: &[u8], base_log: &[Event], base_res_code: u32, script: &[
                 Act::Error(_) => 2,
                 Act::ErrorState(_) => 3,
                 Act::ErrorLoader(_) => 4,
+                Act::ErrorStd(_) => 5,
                 Act::Continue => 0,
             };
             cov.triple(
@@ -178,6 +179,13 @@ fn check_script(bytes: &[u8], base_log: &[Event], base_res_code: u32, script: &[
                     Some(le) if format!("{:?}", le) == format!("{:?}", loader_error_for(n)) => {}
                     _ => return mk("error-value", format!("{} type=dr::Error", locus), format!("consumer returned {:?} as its error but the parse result carries {:?}", loader_error_for(n), e.to_string())),
                 },
+                (Act::ErrorStd(n), Err(ParseState::ConsumerError(e))) => {
+                    let want = crate::real::std_error_for(n);
+                    if crate::real::std_error_identity(e.as_ref()) != crate::real::std_error_identity(want.as_ref()) {
+                        return mk("error-value", format!("{} type=std", locus), format!("consumer returned {:?} as its error but the parse result carries {:?}", crate::real::std_error_identity(want.as_ref()), crate::real::std_error_identity(e.as_ref())));
+                    }
+                    cov.hit("reached.consumer_error_is_a_std_error");
+                }
                 _ => {
                     return mk("action-result", locus, format!("consumer answered {:?} at callback #{} but the parse returned {:?}", act, k, res.as_ref().err().map(|e| format!("{:?}", e)).unwrap_or("Ok".into())));
                 }
@@ -217,10 +225,11 @@ impl Property for C14 {
             let mut sc = vec![Act::Continue; n];
             for a in sc.iter_mut() {
                 if rng.chance(1, 6) {
-                    *a = match rng.below(4) {
+                    *a = match rng.below(5) {
                         0 => Act::Stop,
                         1 => Act::Error(rng.u32()),
                         2 => Act::ErrorState(rng.below(5) as u8),
+                        3 => Act::ErrorStd(rng.below(crate::real::STD_ERRORS as u64) as u8),
                         _ => Act::ErrorLoader(rng.below(3) as u8),
                     };
                 }
@@ -372,7 +381,9 @@ impl Property for C14 {
                 }
                 None => {
                     for k in 0..=log.len() {
-                        for act in [Act::Stop, Act::Error(0xC14_0000 + k as u32), if k % 2 == 0 { Act::ErrorState(k as u8) } else { Act::ErrorLoader(k as u8) }] {
+                        // the sweep's standard-library error value rotates with the position and the binary's length
+                        let std_n = ((k + bytes.len() / 4) % crate::real::STD_ERRORS as usize) as u8;
+                        for act in [Act::Stop, Act::Error(0xC14_0000 + k as u32), if k % 2 == 0 { Act::ErrorState(k as u8) } else { Act::ErrorLoader(k as u8) }, Act::ErrorStd(std_n)] {
                             let mut sc = vec![Act::Continue; k];
                             sc.push(act);
                             step += 1;
